@@ -456,15 +456,28 @@ func engineStatic(which string) engineFn {
 				var inserted []ins
 				for k := 1 + g.r.Intn(8); k > 0; k-- {
 					name := ff.tables[g.r.Intn(len(ff.tables))].name
+					if g.coin(0.3) { // the row loop with the most state carried from row to row
+						name = "stop_times.txt"
+					}
 					row, cause := g.rejectedRow(f, name)
 					if row == nil {
 						continue
 					}
 					t := ff.table(name)
 					pos := g.r.Intn(len(t.rows) + 1)
-					t.rows = append(t.rows[:pos], append([]srow{row}, t.rows[pos:]...)...)
-					inserted = append(inserted, ins{name, cause, row, pos})
-					stats["inserted:"+cause]++
+					ins1 := []srow{row}
+					for g.coin(0.4) && len(ins1) < 4 { // runs of identical rejected rows (same unknown id on consecutive rows)
+						cp := srow{}
+						for kk, vv := range row {
+							cp[kk] = vv
+						}
+						ins1 = append(ins1, cp)
+					}
+					t.rows = append(t.rows[:pos], append(ins1, t.rows[pos:]...)...)
+					for range ins1 {
+						inserted = append(inserted, ins{name, cause, row, pos})
+					}
+					stats["inserted:"+cause] += len(ins1)
 				}
 				p := canonicalPresentation(ff)
 				ms := renderFeed(nil, p, ff)
